@@ -1069,6 +1069,12 @@ inline url::url(url&& other) noexcept
     , search_params_ptr_(std::move(other.search_params_ptr_))
 {
     search_params_ptr_.set_url_ptr(this);
+    // leave the moved-from URL in the empty state
+    other.norm_url_.clear();
+    other.part_end_.fill(0);
+    other.scheme_inf_ = nullptr;
+    other.flags_ = INITIAL_FLAGS;
+    other.path_segment_count_ = 0;
 }
 
 inline url& url::operator=(url&& other) UPA_NOEXCEPT_17 {
@@ -1105,6 +1111,14 @@ inline void url::move_record(url& other) UPA_NOEXCEPT_17 {
     scheme_inf_ = other.scheme_inf_;
     flags_ = other.flags_;
     path_segment_count_ = other.path_segment_count_;
+    // leave the moved-from URL in the empty state
+    if (this != std::addressof(other)) {
+        other.norm_url_.clear();
+        other.part_end_.fill(0);
+        other.scheme_inf_ = nullptr;
+        other.flags_ = INITIAL_FLAGS;
+        other.path_segment_count_ = 0;
+    }
 }
 
 // url getters
